@@ -196,5 +196,8 @@ def run(chk, repo, tier):
     tilt_chain(chk, repo, 'C02-c')
     X.extent_identities(chk, repo, 'C02-f')
     X.mask_window_identities(chk, repo, 'C02-f')
+    from .common import Remap
+    from .c20 import reduce_rules
+    reduce_rules(Remap(chk, {'C20-e': 'C02-f'}), repo)
     field_accumulation(chk, repo, 'C02-g')
     X.extent_equivariance(chk, repo, 'C02-h')
